@@ -109,6 +109,10 @@ def gen(rng):
         steps.append(['f', tdir + '/files/entro/ro-sub/pinned', 'cannot be unlinked', 0o444])
         faults.append({'kind': 'cond', 'what': 'dir_not_writable', 'dir': tdir + '/files/entro/ro-sub'})
         G.add_trashed(steps, tdir, 'entro.trashinfo', TG.pct(home + '/w/entro.trashinfo'), '2011-01-02T00:00:00', rng.choice(['file', 'dir']), tag='ro-ti')
+    if cmd in ('trash-empty', 'trash-rm') and not faults and rng.random() < 0.04:
+        # files/ of one trash directory has lost its search (x) permission (chmod 600 files, a botched chmod -R): an ordinary user
+        # can list it but cannot look anything up below it (EACCES, emulated).  What cannot be looked at is not known to be gone
+        faults.append({'kind': 'cond', 'what': 'dir_not_searchable', 'dir': locs[0][0] + '/files'})
     many = 0
     if cmd in ('trash-empty', 'trash-rm') and rng.random() < 0.01:
         # hundreds or thousands of entries in one trash directory, just past a round number: an implementation that works in
